@@ -2,6 +2,7 @@ package main
 
 import (
 	"fmt"
+	"go/constant"
 	"go/token"
 	"go/types"
 	"sort"
@@ -51,6 +52,14 @@ type NilGuardSpec struct {
 	Delegate func(call ssa.CallInstruction, v ssa.Value) bool
 	// NeutralUse lets a property exempt further uses that are harmless on nil (rare).
 	NeutralUse func(instr ssa.Instruction, v ssa.Value) bool
+	// NilEquiv: functions f with f(x) == nil iff x == nil (reflect.TypeOf); value: argument index.
+	NilEquiv map[*types.Func]int
+	// NilPreserving recognises calls C = f(..., y, ...) that are documented (and checked elsewhere)
+	// to return (nil value, ..., nil error) whenever y is nil: it returns the index of y among the
+	// call's arguments and the indices of the value and error results. A nil test of such a result
+	// (also after a phi that replaces it on the call's error branch) then witnesses y's nil-ness:
+	// y nil => result nil, so "result non-nil" implies "y non-nil".
+	NilPreserving func(call *ssa.Call) (arg, val, err int, ok bool)
 }
 
 type NilGuardUse struct {
@@ -70,6 +79,7 @@ type NilGuardResult struct {
 	spec       *NilGuardSpec
 	vals       []ssa.Value
 	tracked    map[ssa.Value]bool
+	reach      map[ssa.Value]map[*ssa.BasicBlock]bool
 }
 
 // Canon maps a value to the tracked thing it reads (see ngCanon).
@@ -138,11 +148,11 @@ func ngIsNilConst(v ssa.Value) bool {
 
 // ngCondFacts returns the tracked values known non-nil on the true edge ([0]) and on the
 // false edge ([1]) of a branch on cond.
-func ngCondFacts(cond ssa.Value, spec *NilGuardSpec, tracked map[ssa.Value]bool) (facts [2][]ssa.Value) {
+func ngCondFacts(cond ssa.Value, spec *NilGuardSpec, tracked map[ssa.Value]bool, resolve func(ssa.Value) ssa.Value) (facts [2][]ssa.Value) {
 	switch c := cond.(type) {
 	case *ssa.UnOp:
 		if c.Op == token.NOT {
-			f := ngCondFacts(c.X, spec, tracked)
+			f := ngCondFacts(c.X, spec, tracked, resolve)
 			return [2][]ssa.Value{f[1], f[0]}
 		}
 	case *ssa.BinOp:
@@ -154,7 +164,20 @@ func ngCondFacts(cond ssa.Value, spec *NilGuardSpec, tracked map[ssa.Value]bool)
 				x = c.Y
 			}
 			if x != nil {
+				// f(x) == nil with f nil-equivalent (reflect.TypeOf)
+				if call, ok := x.(*ssa.Call); ok {
+					if fn := ngStaticCallee(&call.Call); fn != nil {
+						if ai, ok := spec.NilEquiv[fn]; ok && ai < len(call.Call.Args) {
+							x = call.Call.Args[ai]
+						}
+					}
+				}
 				x = ngCanon(x, tracked)
+				if !tracked[x] && resolve != nil {
+					if y := resolve(x); y != nil {
+						x = y
+					}
+				}
 			}
 			if x != nil && tracked[x] {
 				if c.Op == token.EQL {
@@ -210,7 +233,14 @@ func NilGuardAnalyze(fn *ssa.Function, vals []ssa.Value, spec *NilGuardSpec) *Ni
 			continue
 		}
 		if iff, ok := b.Instrs[len(b.Instrs)-1].(*ssa.If); ok {
-			f := ngCondFacts(iff.Cond, spec, tracked)
+			f := ngCondFacts(iff.Cond, spec, tracked, func(x ssa.Value) ssa.Value {
+				for _, v := range vals {
+					if ngNilWhenNil(x, v, spec, tracked, map[ssa.Value]bool{}) {
+						return v
+					}
+				}
+				return nil
+			})
 			if len(f[0])+len(f[1]) > 0 {
 				res.Facts[iff] = f
 				res.Tests++
@@ -364,18 +394,187 @@ func (r *NilGuardResult) KnownNonNil(b *ssa.BasicBlock, v ssa.Value) bool {
 		if !ok {
 			continue
 		}
-		f, ok := r.Facts[iff]
-		if !ok || p.Succs[0] == p.Succs[1] {
+		if p.Succs[0] == p.Succs[1] {
 			continue
 		}
 		idx := 1
 		if p.Succs[0] == x {
 			idx = 0
 		}
+		f, ok := r.Facts[iff]
+		if !ok {
+			// `if flag` where flag is a phi of boolean constants that is true only on edges that
+			// already know v non-nil (or that never evaluated v): `if v != nil { inc = true } … if inc {`
+			if r.flagImpliesNonNil(iff.Cond, idx == 0, v, map[ssa.Value]bool{}) {
+				return true
+			}
+			continue
+		}
 		for _, k := range f[idx] {
 			if k == v {
 				return true
 			}
+		}
+	}
+	return false
+}
+
+// flagImpliesNonNil: cond evaluating to `want` implies v non-nil (or v not evaluated on that path).
+func (r *NilGuardResult) flagImpliesNonNil(cond ssa.Value, want bool, v ssa.Value, seen map[ssa.Value]bool) bool {
+	switch c := cond.(type) {
+	case *ssa.UnOp:
+		if c.Op == token.NOT {
+			return r.flagImpliesNonNil(c.X, !want, v, seen)
+		}
+	case *ssa.Phi:
+		if seen[c] {
+			return true
+		}
+		seen[c] = true
+		for i, e := range c.Edges {
+			pred := c.Block().Preds[i]
+			switch k := e.(type) {
+			case *ssa.Const:
+				if k.Value == nil || k.Value.Kind() != constant.Bool {
+					return false
+				}
+				if constant.BoolVal(k.Value) != want {
+					continue // this edge cannot produce the wanted outcome
+				}
+				if !r.KnownNonNil(pred, v) && r.reachableFromDef(pred, v) {
+					return false
+				}
+			case *ssa.Phi:
+				if !r.flagImpliesNonNil(k, want, v, seen) {
+					return false
+				}
+			default:
+				return false
+			}
+		}
+		return true
+	}
+	return false
+}
+
+// reachableFromDef reports whether block b can execute after v was defined.
+func (r *NilGuardResult) reachableFromDef(b *ssa.BasicBlock, v ssa.Value) bool {
+	if r.reach == nil {
+		r.reach = map[ssa.Value]map[*ssa.BasicBlock]bool{}
+	}
+	set, ok := r.reach[v]
+	if !ok {
+		set = map[*ssa.BasicBlock]bool{}
+		var def *ssa.BasicBlock
+		if in, ok := v.(ssa.Instruction); ok {
+			def = in.Block()
+		}
+		if def == nil { // parameters: defined at entry
+			for _, bb := range r.Fn.Blocks {
+				set[bb] = true
+			}
+		} else {
+			set[def] = true
+			work := []*ssa.BasicBlock{def}
+			for len(work) > 0 {
+				x := work[len(work)-1]
+				work = work[:len(work)-1]
+				for _, s := range x.Succs {
+					if !set[s] {
+						set[s] = true
+						work = append(work, s)
+					}
+				}
+			}
+		}
+		r.reach[v] = set
+	}
+	return set[b]
+}
+
+// ReachableFromDef is the exported form for property code.
+func (r *NilGuardResult) ReachableFromDef(b *ssa.BasicBlock, v ssa.Value) bool {
+	return r.reachableFromDef(b, v)
+}
+
+// ngNilWhenNil: x is nil on every feasible path on which v is nil.
+func ngNilWhenNil(x, v ssa.Value, spec *NilGuardSpec, tracked map[ssa.Value]bool, seen map[ssa.Value]bool) bool {
+	x = ngCanon(x, tracked)
+	if x == v {
+		return true
+	}
+	if spec.NilPreserving == nil || seen[x] {
+		return false
+	}
+	seen[x] = true
+	switch t := x.(type) {
+	case *ssa.Extract:
+		if call, ok := t.Tuple.(*ssa.Call); ok {
+			if ai, vi, _, ok := spec.NilPreserving(call); ok && vi == t.Index && ai < len(call.Call.Args) {
+				return ngNilWhenNil(call.Call.Args[ai], v, spec, tracked, seen)
+			}
+		}
+	case *ssa.Phi:
+		for i, e := range t.Edges {
+			if ngNilWhenNil(e, v, spec, tracked, seen) {
+				continue
+			}
+			// the edge is infeasible when v is nil if it lies on the error branch of a nil-preserving call on v
+			if !ngOnErrorBranch(t.Block().Preds[i], v, spec, tracked) {
+				return false
+			}
+		}
+		return true
+	}
+	return false
+}
+
+// ngOnErrorBranch: block b is dominated by the err != nil edge of a nil-preserving call whose
+// argument is nil whenever v is nil (such a call returns a nil error for a nil argument).
+func ngOnErrorBranch(b *ssa.BasicBlock, v ssa.Value, spec *NilGuardSpec, tracked map[ssa.Value]bool) bool {
+	for x := b; x != nil; x = x.Idom() {
+		if len(x.Preds) != 1 {
+			continue
+		}
+		p := x.Preds[0]
+		if len(p.Instrs) == 0 || p.Succs[0] == p.Succs[1] {
+			continue
+		}
+		iff, ok := p.Instrs[len(p.Instrs)-1].(*ssa.If)
+		if !ok {
+			continue
+		}
+		bo, ok := iff.Cond.(*ssa.BinOp)
+		if !ok || (bo.Op != token.NEQ && bo.Op != token.EQL) {
+			continue
+		}
+		var e ssa.Value
+		if ngIsNilConst(bo.Y) {
+			e = bo.X
+		} else if ngIsNilConst(bo.X) {
+			e = bo.Y
+		}
+		ex, ok := e.(*ssa.Extract)
+		if !ok {
+			continue
+		}
+		call, ok := ex.Tuple.(*ssa.Call)
+		if !ok {
+			continue
+		}
+		ai, _, ei, ok := spec.NilPreserving(call)
+		if !ok || ei != ex.Index || ai >= len(call.Call.Args) {
+			continue
+		}
+		if !ngNilWhenNil(call.Call.Args[ai], v, spec, tracked, map[ssa.Value]bool{}) {
+			continue
+		}
+		nonNilEdge := 0 // err != nil: true edge
+		if bo.Op == token.EQL {
+			nonNilEdge = 1
+		}
+		if p.Succs[nonNilEdge] == x {
+			return true
 		}
 	}
 	return false
